@@ -208,6 +208,7 @@ Verdict(e) ==
                P_C14_Frame |-> P_C14_Frame(e, pre, post),
                P_C14_DiskSame |-> e.pre.disk = e.post.disk,
                P_C11_Valid |-> P_C11_Valid(e),
+               P_C10_Reread |-> \A j \in DOMAIN e.post.hist : \A i \in DOMAIN e.post.hist[j].gens : e.post.hist[j].gens[i].reread_ok,
                P_C07_Recorded |-> P_C07_Recorded(e),
                P_C07_Relations |-> (e.op.op = "create") => P_C07_Relations(e, pre, post),
                P_C07_Printed |-> (e.op.op = "verifydh" /\ e.op.co /\ e.exit = 0) => (e.co.bad = <<>> /\ e.co.printed = e.co.good /\ e.co.printed >= e.co.ndirs),
